@@ -149,6 +149,7 @@ func TestC19(t *testing.T) {
 	defer finish(t, st)
 
 	if replaying() {
+		c19Signing(t, st)
 		var rp c19Replay
 		if replayFor(t, "states", &rp) {
 			st.Eval()
@@ -164,6 +165,7 @@ func TestC19(t *testing.T) {
 		return
 	}
 
+	t.Run("signing-continue", func(t *testing.T) { c19Signing(t, st) })
 	pairs := c05Pairs(pick(3, 4))
 	si, sn := shard()
 	for k, p := range pairs {
